@@ -20,6 +20,10 @@ static size_t g_k;
     __CPROVER_assume(k < sizeof(secp256k1_context)); g_k = k; c##_0 = c; HASHLOG_RESET()
 #define CTX_FRAME(c, text) { __CPROVER_assert(B(c, g_k) == B(c##_0, g_k), text); __CPROVER_assert(g_error == 0, "C20 frames: error callback never invoked"); }
 #define OBJ(T, n) INPUT(T, n); INPUT(_Bool, has_##n); T *p_##n = has_##n ? &n : NULL
+/* "the functions documented to accept the static context always do" (audit 2 #29): the context object below
+ * has an ARBITRARY built flag, so it includes every byte copy of secp256k1_context_static.  For well-formed
+ * arguments (non-NULL, key object that the library's own loader accepts) no illegal callback may occur. */
+static int pk_loadable(const unsigned char *data64) { secp256k1_ge q; secp256k1_ge_from_bytes(&q, data64); return !secp256k1_fe_is_zero(&q.x); }
 
 void h_frame_ecdsa_verify(void) {
     CTX_SETUP(c1);
@@ -31,6 +35,8 @@ void h_frame_ecdsa_verify(void) {
     ret = secp256k1_ecdsa_verify(&c1, p_sig, has_msg ? fv_msg : NULL, p_pk);
     CTX_FRAME(c1, "C20 frames ecdsa_verify: the context object is not written");
     if (g_illegal == 0) __CPROVER_assert(ret == 0 || ret == 1, "C20 frames ecdsa_verify: returns 0 or 1");
+    if (has_sig && has_msg && has_pk && pk_loadable(pk.data)) __CPROVER_assert(g_illegal == 0, "C20 frames ecdsa_verify: well-formed arguments are never reported as illegal use, whatever the context (static copies included)");
+    if (ret == 1 && !secp256k1_context_is_proper(&c1)) REACH("ecdsa_verify accepts on a copy of the static context");
     if (ret == 1) REACH("ecdsa_verify accepts");
     if (ret == 0 && g_illegal == 0) REACH("ecdsa_verify rejects without callback");
 }
@@ -46,6 +52,8 @@ void h_frame_pubkey_parse(void) {
     WITNESS_BUF(pp_in, in, len, 70);
     CTX_FRAME(c2, "C20 frames ec_pubkey_parse: the context object is not written");
     if (g_illegal == 0) __CPROVER_assert(ret == 0 || ret == 1, "C20 frames ec_pubkey_parse: returns 0 or 1");
+    if (has_pk && has_in) __CPROVER_assert(g_illegal == 0, "C20 frames ec_pubkey_parse: non-NULL arguments are never reported as illegal use, whatever the context (static copies included)");
+    if (ret == 1 && len == 33 && !secp256k1_context_is_proper(&c2)) REACH("pubkey_parse accepts on a copy of the static context");
     if (ret == 1 && len == 33) REACH("pubkey_parse accepts a compressed key");
     if (ret == 1 && len == 65) REACH("pubkey_parse accepts an uncompressed key");
 }
@@ -57,7 +65,10 @@ void h_frame_pubkey_serialize(void) {
     unsigned char *out; int ret;
     __CPROVER_assume(outlen <= 80);
     INPUT_BUF(ps_out, out, outlen, 80);
+    int wellformed = has_out && has_outlen && has_pk && pk_loadable(pk.data) && (flags & SECP256K1_FLAGS_TYPE_MASK) == SECP256K1_FLAGS_TYPE_COMPRESSION &&
+                     outlen >= ((flags & SECP256K1_FLAGS_BIT_COMPRESSION) ? 33u : 65u);
     ret = secp256k1_ec_pubkey_serialize(&c3, has_out ? out : NULL, p_outlen, p_pk, flags);
+    if (wellformed) __CPROVER_assert(g_illegal == 0 && ret == 1, "C20 frames ec_pubkey_serialize: well-formed arguments succeed without callback, whatever the context (static copies included)");
     CTX_FRAME(c3, "C20 frames ec_pubkey_serialize: the context object is not written");
     if (g_illegal == 0) __CPROVER_assert(ret == 0 || ret == 1, "C20 frames ec_pubkey_serialize: returns 0 or 1");
     if (ret == 1 && outlen == 33) REACH("pubkey_serialize compressed");
@@ -75,6 +86,8 @@ void h_frame_schnorrsig_verify(void) {
     ret = secp256k1_schnorrsig_verify(&c4, has_sig ? sv_sig : NULL, has_msg ? msg : NULL, msglen, p_xpk);
     CTX_FRAME(c4, "C20 frames schnorrsig_verify: the context object is not written");
     if (g_illegal == 0) __CPROVER_assert(ret == 0 || ret == 1, "C20 frames schnorrsig_verify: returns 0 or 1");
+    if (has_sig && (has_msg || msglen == 0) && has_xpk && pk_loadable(xpk.data)) __CPROVER_assert(g_illegal == 0, "C20 frames schnorrsig_verify: well-formed arguments are never reported as illegal use, whatever the context (static copies included)");
+    if (ret == 1 && !secp256k1_context_is_proper(&c4)) REACH("schnorrsig_verify accepts on a copy of the static context");
     if (ret == 1) REACH("schnorrsig_verify accepts");
     if (ret == 0 && g_illegal == 0) REACH("schnorrsig_verify rejects without callback");
 }
